@@ -27,6 +27,7 @@ fn extreme_args(ev: Ev) -> Vec<String> {
     let mut v: Vec<String> = ["0", "1", "2", "10", "170", "171", "1000000000000000000", "(-1)", "(-2)", "@", "(1/0)", "(0-1/0)", "(0/0)", "21", "63", "64", "3"].iter().map(|s| s.to_string()).collect();
     if ev != Ev::I64 {
         v.extend(["0.5", "1.2", "1.0000001", "1.4", "1.5", "0.999", "(-0.5)", "(-0.3678794411714423)", "(-0.36)"].iter().map(|s| s.to_string()));
+        v.extend(near_constants().into_iter().map(|s| s.to_string()));
         v.push("9".repeat(60));
     } else {
         v.push("9223372036854775807".into());
@@ -137,8 +138,8 @@ fn nesting_cases() -> &'static Vec<Case> {
                     _ => vec![f.name],
                 };
                 for partner in partners {
-                    for first in [true, false] {
-                        if f.arity == vocab::Arity::One && !first {
+                    for (first, extra) in [(true, 0), (false, 0), (true, 1), (false, 1)] {
+                        if (f.arity == vocab::Arity::One && !first) || (extra == 1 && !matches!(f.arity, vocab::Arity::Var1 | vocab::Arity::Var0)) {
                             continue;
                         }
                         let mut depth = 1usize;
@@ -147,10 +148,14 @@ fn nesting_cases() -> &'static Vec<Case> {
                             let mut s = String::from("1");
                             for d in 0..depth {
                                 let name = if d % 2 == 0 { f.name } else { partner };
-                                s = match (f.arity, first) {
-                                    (vocab::Arity::One, _) => format!("{}({})", name, s),
-                                    (_, true) => format!("{}({},2)", name, s),
-                                    (_, false) => format!("{}(2,{})", name, s),
+                                s = match (f.arity, first, extra) {
+                                    (vocab::Arity::One, _, _) => format!("{}({})", name, s),
+                                    (vocab::Arity::Two, true, _) => format!("{}({},2)", name, s),
+                                    (vocab::Arity::Two, false, _) => format!("{}(2,{})", name, s),
+                                    (_, true, 0) => format!("{}({},2)", name, s),
+                                    (_, false, 0) => format!("{}(2,{})", name, s),
+                                    (_, true, _) => format!("{}({},2,3)", name, s),
+                                    (_, false, _) => format!("{}(2,3,{})", name, s),
                                 };
                             }
                             if char_len(&s) > 256 {
